@@ -271,6 +271,24 @@ sexp sexp_bytes_to_string (sexp ctx, sexp vec, sexp_uint_t offset, sexp_uint_t s
   return res;
 }
 
+/* Like fgets, but the result is a string of all the bytes read, */
+/* so that a line may contain NUL characters. */
+sexp sexp_stream_read_line (sexp ctx, int n, FILE *in) {
+  sexp res;
+  int c = 0, len = 0;
+  char *buf;
+  if (n <= 0) return SEXP_FALSE;
+  buf = (char*) malloc(n);
+  if (!buf) return sexp_global(ctx, SEXP_G_OOM_ERROR);
+  while (len < n-1 && (c = getc(in)) != EOF) {
+    buf[len++] = c;
+    if (c == '\n') break;
+  }
+  res = (len == 0 && c == EOF) ? SEXP_FALSE : sexp_c_string(ctx, buf, len);
+  free(buf);
+  return res;
+}
+
 sexp sexp_open_input_bytevector (sexp ctx, sexp self, sexp vec) {
   sexp_gc_var2(str, res);
   sexp_assert_type(ctx, sexp_bytesp, SEXP_BYTES, vec);
